@@ -2,9 +2,19 @@ import Dhlldv.Prim
 import Dhlldv.Gen.Dispatch
 import Dhlldv.Spec.Select
 import Dhlldv.Spec.Graded
+import Dhlldv.Spec.SlurryObj
+import Dhlldv.Gen.Effects
 
 /-! Line-protocol dispatcher over the hand-written Spec models. -/
 namespace Spec
+
+/-- the slurry-object configuration extracted from the current source (tie A) -/
+def extractedSlurryCfg : Spec.Slurry.Cfg where
+  raises := Effects.slurryRaises
+  readsGsd := Effects.slurryReadsGsd
+  readsCurves := Effects.slurryReadsCurves
+  gsdRaisesCurves := Effects.gsd_raises_curves
+  curvesChecksGsd := Effects.curves_checks_gsd
 
 def dispatch (op : String) (a : Array String) : Option String :=
   match op with
@@ -33,6 +43,37 @@ def dispatch (op : String) (a : Array String) : Option String :=
     let R := Spec.erhgGraded (α := Float) (Gen.bOf a[0]!) (Gen.bOf a[1]!) (Gen.bOf a[2]!) gsd (f 3) (f 4) (f 5) (f 6) (f 7) (f 8) (f 9)
     let scal := [R.im_x, R.X, R.rhox, R.Cv_x, R.Cv_r, R.mu_x, R.nu_x, R.Rsd_x, R.erhg_x, R.erhg, R.il]
     some (" ".intercalate ((scal ++ R.ims ++ R.dxs ++ R.fracs).map Gen.bitsOf))
+  | "spec.slurry" =>
+    -- spec.slurry <op> … with op = s:<param>:<nat> | g:<nat> | g:- | rg | rc ; the configuration is the one extracted
+    -- from the current source (Gen/Effects.lean).  Output per op: dG dC regenGsd regenCurves
+    let c : Spec.Slurry.Cfg := extractedSlurryCfg
+    let parse : String → Option Spec.Slurry.Op := fun t =>
+      match t.splitOn ":" with
+      | ["s", p, v] => some (.set p v.toNat!)
+      | ["g", "-"] => some (.genGsd none)
+      | ["g", v] => some (.genGsd (some v.toNat!))
+      | ["rg"] => some .readGsd
+      | ["rc"] => some .readCurves
+      | _ => none
+    let b := fun (x : Bool) => if x then "1" else "0"
+    let rec go (s : Spec.Slurry.St) (ts : List String) (acc : List String) : Option (List String) :=
+      match ts with
+      | [] => some acc.reverse
+      | t :: rest =>
+        match parse t with
+        | none => none
+        | some op =>
+          let s' := Spec.Slurry.step c s op
+          let rG := match op with
+            | .genGsd _ => true
+            | .readGsd => s.dG
+            | .readCurves => s.dC && s.dG && c.curvesChecksGsd
+            | _ => false
+          let rC := match op with
+            | .readCurves => s.dC
+            | _ => false
+          go s' rest ((b s'.dG ++ b s'.dC ++ b rG ++ b rC) :: acc)
+    (go (Spec.Slurry.init (fun _ => 0) 0) a.toList []).map (" ".intercalate ·)
   | _ => none
 
 end Spec
